@@ -42,9 +42,18 @@ func (w *pkgWorld) End() string {
 	}
 	return ""
 }
+// pkgBuilders counts the builders made: every other one comes from mocker.New() (documented as equivalent to Create(); both find
+// the caller's package by walking the stack)
+var pkgBuilders int
+
 func (w *pkgWorld) builder(b string) *mocker.Builder {
 	if w.b[b] == nil {
-		w.b[b] = mocker.Create()
+		pkgBuilders++
+		if pkgBuilders%2 == 0 {
+			w.b[b] = mocker.New()
+		} else {
+			w.b[b] = mocker.Create()
+		}
 	}
 	return w.b[b]
 }
